@@ -25,7 +25,7 @@ var changeCacheGuardExempt = []GuardExempt{
 }
 
 func checkC08(c *Ctx, r *Report) {
-	r.Explain = "Decides structural necessary conditions of sequence buffering: (R1) every access to the change cache's buffering state happens under its lock (lockset analysis over all functions of package db, entry locksets = meet over call sites); (R2) the contiguous high-water mark is stored only by the three buffering helpers, only to one past a sequence carried by the entry being added, or to the oldest pending sequence immediately after recording exactly the jumped range as skipped; (R3) a late arrival is added to the channel caches before it is removed from the skipped set; (R4) entries are buffered or cached only after the duplicate checks; (R5) the low sequence stamped on every emitted entry is derived from the oldest skipped sequence minus one, and the per-channel feeds resume from SafeSequence.; (R6) entries leave the pending heap only through _popPendingLog (which truncates unused ranges at the next buffered document). Not decided: exactly-once delivery over all arrival permutations, equality of the skipped set with the missing set, thresholds and timing."
+	r.Explain = "Decides structural necessary conditions of sequence buffering: (R1) every access to the change cache's buffering state happens under its lock (lockset analysis over all functions of package db, entry locksets = meet over call sites); (R2) the contiguous high-water mark is stored only by the three buffering helpers, only to one past a sequence carried by the entry being added, or to the oldest pending sequence immediately after recording exactly the jumped range as skipped; (R3) a late arrival is added to the channel caches before it is removed from the skipped set; (R4) entries are buffered or cached only after the duplicate checks; (R5) the low sequence stamped on every emitted entry is derived from the oldest skipped sequence minus one, and the per-channel feeds resume from SafeSequence.; (R6) entries leave the pending heap only through _popPendingLog (which truncates unused ranges at the next buffered document); (R7) an unused-sequence range keeps its two bounds, positionally, from the parsed key to the pending entry and to the skipped-set removal, is buffered only when it starts at or above the high-water mark and is removed from the skipped set only when it ends below it. Not decided: exactly-once delivery over all arrival permutations, equality of the skipped set with the missing set, thresholds and timing."
 	la := newLockAnalysis(c, []string{"changeCache.lock"}, "db")
 	la.EntryHeld = changeCacheEntryHeld
 	la.Solve()
@@ -38,6 +38,7 @@ func checkC08(c *Ctx, r *Report) {
 	c08R3R4(c, r)
 	c08R5(c, r)
 	c08R6(c, r)
+	c08R7(c, r)
 }
 
 func c08R2(c *Ctx, r *Report) {
